@@ -1,6 +1,7 @@
 package store
 
 import (
+	"database/sql"
 	"context"
 	"fmt"
 	"math/big"
@@ -421,3 +422,12 @@ func (k *bridgeKind) hashPools() (live, dead []common.Hash) {
 var bridgeDeny = map[string]bool{
 	"Start": true, "OriginNetwork": true, "BlockFinality": true, "GetLastReorgEvent": true,
 }
+
+func (k *bridgeKind) kindSeed() int64     { return k.seed }
+func (k *bridgeKind) setSeed(s int64)     { k.seed = s }
+func (k *bridgeKind) workDir() string     { return k.dir }
+
+// prepare records what process would have recorded about the block, without processing it (the block is processed by a child process).
+func (k *bridgeKind) prepare(op Op) {}
+
+func (k *bridgeKind) pool() *sql.DB { return k.node.VerifDB() }
